@@ -208,6 +208,7 @@ type Result struct {
 	// Reentry: a rule was re-entered at an offset where it was active.
 	Reentry string
 	Final   string // final state store (canonical)
+	Caught  int    // throws for which a listed handler was run
 }
 
 type handler struct {
@@ -247,6 +248,7 @@ type Interp struct {
 	reentry  string
 	curText  string // what c.text / c.pos hold in the implementation (QPredStale)
 	curPos   [3]int
+	caught   int
 	seeds    map[string]memoVal
 	growing  map[string]int // SCC id -> number of heads growing, per position key
 	an       *Analysis
@@ -283,6 +285,7 @@ func Run(g *Grammar, in []byte, script map[int]*rtapi.Block, o Options) (res *Re
 		res.Backtracked = ip.backtr
 		res.Reentry = ip.reentry
 		res.Final = ip.st.canon()
+		res.Caught = ip.caught
 		for o := range ip.advanced {
 			res.Advanced = append(res.Advanced, o)
 		}
@@ -793,7 +796,16 @@ func (ip *Interp) evalInner(e *Expr, pos int, env map[string]any) (bool, int, an
 			if ip.O.DynamicRecoveryScope {
 				henv = env
 			}
-			if ok, end, v := ip.eval(h.expr, pos, henv); ok {
+			ip.caught++
+			tk := fmt.Sprintf("%s@%d#%d", e.Name, pos, i)
+			if ip.active[tk] > 0 {
+				// a handler that throws its own label again at the same position
+				panic(&refPanic{kind: "diverge", why: "handler re-entered " + tk})
+			}
+			ip.active[tk]++
+			ok, end, v := ip.eval(h.expr, pos, henv)
+			ip.active[tk]--
+			if ok {
 				return true, end, v
 			}
 		}
